@@ -1,6 +1,6 @@
 // RefDOM: a small executable reference model of DOM Core tree semantics (Level 2/3), written from the
 // specification. It knows nothing about xerces. Used step by step against the real DOM (C13) and as the tree
-// under the reference views of C14.
+// under the reference views of C14 (sim/refviews.hpp), which observe every primitive tree mutation.
 #pragma once
 #include <string>
 #include <vector>
@@ -11,17 +11,21 @@
 namespace refdom {
 
 enum Type { ELEMENT = 1, ATTRIBUTE = 2, TEXT = 3, CDATA = 4, ENTITY_REFERENCE = 5, ENTITY = 6, PI = 7, COMMENT = 8, DOCUMENT = 9, DOCUMENT_TYPE = 10, FRAGMENT = 11, NOTATION = 12 };
-enum Err { OK = 0, INDEX_SIZE_ERR = 1, HIERARCHY_REQUEST_ERR = 3, WRONG_DOCUMENT_ERR = 4, INVALID_CHARACTER_ERR = 5, NO_MODIFICATION_ALLOWED_ERR = 7, NOT_FOUND_ERR = 8, NOT_SUPPORTED_ERR = 9, INUSE_ATTRIBUTE_ERR = 10, NAMESPACE_ERR = 14 };
+enum Err { OK = 0, INDEX_SIZE_ERR = 1, HIERARCHY_REQUEST_ERR = 3, WRONG_DOCUMENT_ERR = 4, INVALID_CHARACTER_ERR = 5, NO_MODIFICATION_ALLOWED_ERR = 7, NOT_FOUND_ERR = 8, NOT_SUPPORTED_ERR = 9, INUSE_ATTRIBUTE_ERR = 10, INVALID_STATE_ERR = 11, NAMESPACE_ERR = 14 };
 
 struct Node {
     int id = 0; int type = 0; std::u16string name, ns, value; bool hasNs = false;
     Node* parent = nullptr; std::vector<Node*> kids; std::vector<Node*> attrs; Node* ownerElement = nullptr; Node* doc = nullptr;
     bool released = false; bool readOnly = false; long ud[2] = { 0, 0 };     // user data values by key index (0 = none)
+    bool idAttr = false;        // attribute declared to be of type ID (setIdAttribute*)
     bool isCharData() const { return type == TEXT || type == CDATA || type == COMMENT; }
     int indexInParent() const { if (!parent) return -1; for (size_t i = 0; i < parent->kids.size(); i++) if (parent->kids[i] == this) return (int)i; return -1; }
     Node* next() const { int i = indexInParent(); return i >= 0 && (size_t)i + 1 < parent->kids.size() ? parent->kids[(size_t)i + 1] : nullptr; }
     Node* prev() const { int i = indexInParent(); return i > 0 ? parent->kids[(size_t)i - 1] : nullptr; }
     Node* ownerDoc() const { return type == DOCUMENT ? nullptr : doc; }
+    Node* root() { Node* n = this; while (n->parent) n = n->parent; return n; }
+    // length in the sense of DOM Range: characters for character data and PIs, children otherwise
+    size_t length() const { return (isCharData() || type == PI) ? value.size() : kids.size(); }
 };
 
 // outcome of a model operation: which errors the specification allows for it (empty = must succeed)
@@ -33,9 +37,19 @@ inline bool isNameStart(char16_t c) { return (c >= u'a' && c <= u'z') || (c >= u
 inline bool isNameChar(char16_t c) { return isNameStart(c) || (c >= u'0' && c <= u'9') || c == u'-' || c == u'.' || c == 0xB7; }
 inline bool validName(const std::u16string& s) { if (s.empty() || !isNameStart(s[0])) return false; for (auto c : s) if (!isNameChar(c)) return false; return true; }
 
+// views (iterators, ranges, ...) observe the primitive mutations of the tree
+struct Observer {
+    virtual ~Observer() {}
+    virtual void preRemove(Node*) {}                                            // n is about to be removed from its parent (still attached)
+    virtual void inserted(Node* /*parent*/, size_t /*index*/) {}                // one node has been inserted into parent at index
+    virtual void dataReplaced(Node*, size_t /*off*/, size_t /*count*/, size_t /*newLen*/) {}  // characters [off, off+count) replaced by newLen characters
+    virtual void textSplit(Node* /*orig*/, Node* /*tail*/, size_t /*off*/) {}   // orig has been cut at off; tail (already inserted behind it if orig has a parent) carries the rest
+};
+
 class Model {
 public:
     std::vector<Node*> all;      // every node ever created (ids are indices)
+    std::vector<Observer*> observers;
     ~Model() { for (auto n : all) delete n; }
     Node* make(int type, Node* doc, const std::u16string& name = u"", const std::u16string& value = u"") { Node* n = new Node(); n->id = (int)all.size(); n->type = type; n->doc = type == DOCUMENT ? n : doc; n->name = name; n->value = value; all.push_back(n); return n; }
 
@@ -51,7 +65,17 @@ public:
     static bool isAncestorOrSelf(const Node* a, const Node* n) { for (const Node* p = n; p; p = p->parent) if (p == a) return true; return false; }
     static int countKids(const Node* p, int type, const Node* except = nullptr) { int c = 0; for (auto k : p->kids) if (k->type == type && k != except) c++; return c; }
     static void setDocRec(Node* n, Node* doc) { n->doc = doc; for (auto k : n->kids) setDocRec(k, doc); for (auto a : n->attrs) setDocRec(a, doc); }
-    static void detach(Node* n) { if (n->parent) { auto& v = n->parent->kids; v.erase(std::find(v.begin(), v.end(), n)); n->parent = nullptr; } }
+
+    // ---- primitive mutations (observed)
+    void removeNode(Node* n) { if (!n->parent) return; for (auto o : observers) o->preRemove(n); auto& v = n->parent->kids; v.erase(std::find(v.begin(), v.end(), n)); n->parent = nullptr; }
+    void insertAt(Node* parent, Node* n, size_t pos) { parent->kids.insert(parent->kids.begin() + (long)pos, n); n->parent = parent; for (auto o : observers) o->inserted(parent, pos); }
+    void replaceData(Node* n, size_t off, size_t count, const std::u16string& text) { count = std::min(count, n->value.size() - off); n->value.replace(off, count, text); for (auto o : observers) o->dataReplaced(n, off, count, text.size()); }
+    Node* splitText(Node* n, size_t off) {
+        Node* t = make(n->type, n->doc, n->name, n->value.substr(off));
+        if (n->parent) { insertAt(n->parent, t, (size_t)n->indexInParent() + 1); n->value.resize(off); for (auto o : observers) o->textSplit(n, t, off); }
+        else replaceData(n, off, n->value.size() - off, u"");       // no parent: the tail node is not in any tree, boundary points cannot follow it - the cut is a plain deletion
+        return t;
+    }
 
     // ---- preconditions of insertBefore(parent, newChild, refChild); `replacing` = node that will go away (replaceChild)
     Verdict checkInsert(Node* parent, Node* nw, Node* ref, Node* replacing = nullptr) {
@@ -76,20 +100,22 @@ public:
         if (parent->type == DOCUMENT && nw->parent == parent && (nw->type == ELEMENT || nw->type == DOCUMENT_TYPE)) { if (v.ok()) v.refusal.insert(HIERARCHY_REQUEST_ERR); else v.add(HIERARCHY_REQUEST_ERR); }
         return v;
     }
+    // a fragment's children are moved one by one (each a removal from the fragment and an insertion)
     void doInsert(Node* parent, Node* nw, Node* ref) {
-        std::vector<Node*> incoming; if (nw->type == FRAGMENT) { incoming = nw->kids; for (auto c : incoming) c->parent = nullptr; nw->kids.clear(); } else { if (nw == ref) ref = nw->next(); detach(nw); incoming.push_back(nw); }
-        size_t pos = parent->kids.size(); if (ref) pos = (size_t)ref->indexInParent();
-        for (auto c : incoming) { parent->kids.insert(parent->kids.begin() + (long)pos++, c); c->parent = parent; }
+        if (nw->type == FRAGMENT) { while (!nw->kids.empty()) { Node* c = nw->kids[0]; removeNode(c); insertAt(parent, c, ref ? (size_t)ref->indexInParent() : parent->kids.size()); } return; }
+        if (nw == ref) ref = nw->next();
+        removeNode(nw); insertAt(parent, nw, ref ? (size_t)ref->indexInParent() : parent->kids.size());
     }
     Verdict insertBefore(Node* parent, Node* nw, Node* ref) { Verdict v = checkInsert(parent, nw, ref); if (v.ok()) doInsert(parent, nw, ref); return v; }
-    Verdict removeChild(Node* parent, Node* child) { Verdict v; if (child->parent != parent) { v.add(NOT_FOUND_ERR); return v; } detach(child); return v; }
+    Verdict removeChild(Node* parent, Node* child) { Verdict v; if (child->parent != parent) { v.add(NOT_FOUND_ERR); return v; } removeNode(child); return v; }
+    // The order "insert the new node in front of the old one, then remove the old one" is not fixed by DOM Level 2 (it
+    // only shows in where a Range boundary point that sat right behind the old node ends up); it is the order xerces-c uses.
     Verdict replaceChild(Node* parent, Node* nw, Node* old) {
         Verdict v; if (old->parent != parent) v.add(NOT_FOUND_ERR);
         if (nw == old) { return v; }
         Verdict c = checkInsert(parent, nw, nullptr, old->parent == parent ? old : nullptr); for (int e : c.errs) v.add(e);
         if (!v.ok()) return v;
-        Node* ref = old->next(); if (ref == nw) ref = nw->next();
-        detach(old); doInsert(parent, nw, ref); return v;
+        doInsert(parent, nw, old); removeNode(old); return v;
     }
     Node* cloneRec(Node* n, Node* doc, bool deep) {
         Node* c = make(n->type, doc, n->name, n->value); c->ns = n->ns; c->hasNs = n->hasNs; c->readOnly = n->readOnly;
@@ -102,17 +128,19 @@ public:
     Node* findAttr(Node* el, const std::u16string& name) { for (auto a : el->attrs) if (a->name == name) return a; return nullptr; }
     // (the Text children that carry an attribute's value are an implementation detail the model does not mirror)
     void setAttrValue(Node* a, const std::u16string& val) { a->value = val; }
+    // adjacent Text nodes are merged into the first (append, then removal of the second), empty Text nodes are removed;
+    // the removed nodes stay alive as detached nodes
     void normalize(Node* n) {
         for (size_t i = 0; i < n->kids.size();) {
             Node* k = n->kids[i];
             if (k->type == TEXT) {
-                while (i + 1 < n->kids.size() && n->kids[i + 1]->type == TEXT) { Node* nx = n->kids[i + 1]; k->value += nx->value; nx->parent = nullptr; n->kids.erase(n->kids.begin() + (long)i + 1); merged.push_back(nx); }
-                if (k->value.empty()) { k->parent = nullptr; n->kids.erase(n->kids.begin() + (long)i); merged.push_back(k); continue; }
+                while (i + 1 < n->kids.size() && n->kids[i + 1]->type == TEXT) { Node* nx = n->kids[i + 1]; replaceData(k, k->value.size(), 0, nx->value); removeNode(nx); merged.push_back(nx); }
+                if (k->value.empty()) { removeNode(k); merged.push_back(k); continue; }
             } else normalize(k);
             i++;
         }
     }
-    std::vector<Node*> merged;   // nodes that normalize() removed from the tree (the caller drops them from its live set)
+    std::vector<Node*> merged;   // nodes that normalize() removed from the tree
 };
 
 } // namespace refdom
